@@ -51,6 +51,8 @@ def den(v):
 def gen_start(rnd):
     prj = 'isg' if rnd.random() < 0.3 else 'utm'
     ell = 'ans' if (prj == 'isg' or rnd.random() < 0.3) else 'grs80'
+    if prj == 'isg' and rnd.random() < 0.25:
+        ell = 'grs80'        # the library warns and computes: ISG numbers on the ellipsoid that was asked for
     lat = rnd.uniform(-79.5, 83.5)
     if rnd.random() < 0.1:
         lat = rnd.choice([-0.5, 0.25, 1e-6, -1e-6, -33.5, 45.0, 0.0, -0.0, 0.0])
@@ -72,7 +74,10 @@ def gen_start(rnd):
     def hs():
         s = rnd.choice(HSTATES)
         return None if s == 'absent' else (0.0 if s == 'zero' else round(rnd.uniform(-100, 3000), 3))
-    return {'ell': ell, 'prj': prj, 'lat': lat, 'lon': lon, 'h': hs(), 'H': hs(), 'notation': rnd.choice(NOTATIONS)}
+    st = {'ell': ell, 'prj': prj, 'lat': lat, 'lon': lon, 'h': hs(), 'H': hs(), 'notation': rnd.choice(NOTATIONS)}
+    if rnd.random() < 0.3:
+        st['omit_defaults'] = True      # conversion methods called with their default arguments left out
+    return st
 
 
 def build_geo(ns, st):
@@ -88,11 +93,31 @@ def hkey(h, H):
 
 
 class Judge:
-    def __init__(self, ns, ctx, ell, prj):
+    def __init__(self, ns, ctx, ell, prj, omit_defaults=False):
         self.ns, self.ctx = ns, ctx
         self.ell_name, self.prj_name = ell, prj
         self.ell = tmwork.ell_obj(ns, ell)
         self.prj = tmwork.prj_obj(ns, prj)
+        self.omit_defaults = omit_defaults
+
+    def mcall(self, obj, meth, *vals):
+        """Call a conversion method; when the chain says so, arguments equal to the documented defaults (GRS80, UTM, DECAngle)
+        are left out and the others are passed by keyword (parameter names as the live method spells them)."""
+        f = getattr(obj, meth)
+        if not self.omit_defaults:
+            return f(*vals)
+        import inspect
+        try:
+            names = [q.name for q in inspect.signature(f).parameters.values()][:len(vals)]
+        except (TypeError, ValueError):
+            return f(*vals)
+        if len(names) < len(vals):
+            return f(*vals)
+        C, A = self.ns.constants, self.ns.angles
+        kw = {n: v for n, v in zip(names, vals) if not (v is C.grs80 or v is C.utm or v is A.DECAngle)}
+        if len(kw) < len(vals):
+            self.ctx.count('method_calls_with_defaults_left_out')
+        return f(**kw)
 
     def v(self, mech, case, detail):
         self.ctx.violation(mech, case, detail)
@@ -106,7 +131,7 @@ class Judge:
         if g.ell_ht == 0 or g.orth_ht == 0:
             ctx.count('height_zero_cases')
         try:
-            c = g.cart(self.ell)
+            c = self.mcall(g, 'cart', self.ell)
         except Exception as e:
             self.v('CoordGeo.cart:exception', case, {'exception': repr(e)})
             return None
@@ -127,7 +152,7 @@ class Judge:
         ctx.count('op:cart.geo')
         ctx.bucket('cart.geo', notation, 'N-absent' if c.nval is None else ('N-zero' if c.nval == 0 else 'N'), self.ell_name)
         try:
-            g = c.geo(self.ell, ncls(self.ns, notation))
+            g = self.mcall(c, 'geo', self.ell, ncls(self.ns, notation))
         except Exception as e:
             self.v('CoordCart.geo:exception', case, {'exception': repr(e), 'notation': notation})
             return None
@@ -157,7 +182,7 @@ class Judge:
         with warnings.catch_warnings():
             warnings.simplefilter('ignore')
             try:
-                t = g.tm(self.ell, self.prj)
+                t = self.mcall(g, 'tm', self.ell, self.prj)
             except Exception as e:
                 self.v('CoordGeo.tm:exception', case, {'exception': repr(e)})
                 return None
@@ -177,7 +202,7 @@ class Judge:
         with warnings.catch_warnings():
             warnings.simplefilter('ignore')
             try:
-                g = t.geo(self.ell, ncls(self.ns, notation))
+                g = self.mcall(t, 'geo', self.ell, ncls(self.ns, notation))
             except Exception as e:
                 self.v('CoordTM.geo:exception', case, {'exception': repr(e), 'notation': notation})
                 return None
@@ -215,7 +240,7 @@ class Judge:
         with warnings.catch_warnings():
             warnings.simplefilter('ignore')
             try:
-                t = c.tm(self.ell, self.prj)
+                t = self.mcall(c, 'tm', self.ell, self.prj)
             except Exception as e:
                 self.v('CoordCart.tm:exception', case, {'exception': repr(e)})
                 return None
@@ -236,7 +261,7 @@ class Judge:
         with warnings.catch_warnings():
             warnings.simplefilter('ignore')
             try:
-                c = t.cart(self.ell)
+                c = self.mcall(t, 'cart', self.ell)
             except Exception as e:
                 self.v('CoordTM.cart:exception', case, {'exception': repr(e)})
                 return None
@@ -278,7 +303,7 @@ def position_of(ns, J, obj):
 
 
 def run_chain(ns, ctx, start, ops, rec=True):
-    J = Judge(ns, ctx, start['ell'], start['prj'])
+    J = Judge(ns, ctx, start['ell'], start['prj'], bool(start.get('omit_defaults')))
     case = {'start': start, 'ops': ops}
     try:
         cur = build_geo(ns, start)
